@@ -9,6 +9,8 @@
           (out: O object, R refused, C codegen failed)
      G <L> <C> <len,len,..> <len:slack,..>   render grid: for every (sl,sc,el,ec) in [0..L]x[0..C]x[0..L]x[0..C]
        -> "G <bitstring>"  (1 = renderer indexes safely)
+     H <file> <errfile> <len,..> <len:slack,..> <sl> <sc> <el> <ec>   the handler chain: handler owning <file>
+       (text = the lens), diagnostic naming <errfile> (paths already cleaned)  -> "H <0|1> <shown excerpt lines>"
      R <same_file 0|1> <len,len,..> <len:slack,..> <sl> <sc> <el> <ec>   one range (decimal, up to 2^64-1)
        -> "R <0|1> <excerpt_lines>" *)
 open C07_model
@@ -96,4 +98,11 @@ let () =
       let r = { sl = n_of_string a; sc = n_of_string bb; el = n_of_string cc; ec = n_of_string d } in
       Printf.printf "R %s %d\n" (b2s (render_ok_fast (parse_slack slack) (sf = "1") (parse_lens lens) r))
         (match excerpt_lines r with N0 -> 0 | Npos _ as x -> (try int_of_n x with _ -> -1))
+    | ["H"; file; errfile; lens; slack; a; bb; cc; d] ->
+      (* handler created for <file> (its text = lens), diagnostic naming <errfile>; paths arrive cleaned *)
+      let r = { sl = n_of_string a; sc = n_of_string bb; el = n_of_string cc; ec = n_of_string d } in
+      let lines = parse_lens lens in
+      let ok = handler_ok String.equal (fun p -> p) (fun _ -> lines) (parse_slack slack) file errfile r in
+      Printf.printf "H %s %d\n" (b2s ok)
+        (match shown_lines String.equal (fun p -> p) file errfile r with N0 -> 0 | Npos _ as x -> (try int_of_n x with _ -> -1))
     | _ -> ()) (read_lines stdin)
